@@ -153,12 +153,15 @@ def r2(ctx, chk):
     if not guards:
         raise AnalysisError(rule, "pop_tz_offset_from_string has no prefilter guard")
     g = guards[0]
-    used = ast.unparse(g.test.func.value) if isinstance(g.test, ast.Call) else None
+    gt = g.test
+    while isinstance(gt, ast.UnaryOp) and isinstance(gt.op, ast.Not):      # guard clause form: `if not R.search(s): return s, None`
+        gt = gt.operand
+    used = ast.unparse(gt.func.value) if isinstance(gt, ast.Call) and isinstance(gt.func, ast.Attribute) else None
     chk.ob(rule, "prefilter of pop_tz_offset_from_string is the IGNORECASE search regex (%s)" % sorted(ic), used in ic,
            "prefilter uses %s: lower-case abbreviations never reach the table" % used,
            key={"function": f.key, "construct": "prefilter regex"}, file=f.file, function=f.qual, line=g.lineno)
     chk.ob(rule, "prefilter searches (not matches) the whole date string",
-           isinstance(g.test, ast.Call) and g.test.func.attr == "search" and ast.unparse(g.test.args[0]) == f.params()[0], "",
+           isinstance(gt, ast.Call) and isinstance(gt.func, ast.Attribute) and gt.func.attr == "search" and ast.unparse(gt.args[0]) == f.params()[0], "",
            key={"function": f.key, "construct": "prefilter search"}, file=f.file, function=f.qual, line=g.lineno)
     # unpack order of the cache tuple == order it is dumped (C19 checks the same names)
     w = ix.func(TP + ":word_is_tz")
